@@ -40,3 +40,15 @@ fire("C33", "device-resolve-drops-allow_resets",
      (PRE, "        return resolve_dynamic_wires(\n            tape, zeroed=zeroed, min_int=min_int, allow_resets=allow_resets\n        )",
            "        return resolve_dynamic_wires(tape, zeroed=zeroed, min_int=min_int)"),
      "R-C33-config", "device_resolve_dynamic_wires")
+
+# --- R-C33-order
+_DM = "pennylane/devices/default_mixed.py"
+fire("C33", "default-mixed-checks-wires-before-deferring-measurements",
+     [(_DM, "        # Defer first since it adds wires to the device\n        compile_pipeline.add_transform(qp.defer_measurements, allow_postselect=False)\n",
+            "        compile_pipeline.add_transform(validate_device_wires, self.wires, name=self.name)\n        compile_pipeline.add_transform(qp.defer_measurements, allow_postselect=False)\n"),
+      (_DM, "        # Add the validate section\n        compile_pipeline.add_transform(validate_device_wires, self.wires, name=self.name)\n", "        # Add the validate section\n")],
+     "R-C33-order", "DefaultMixed.preprocess")
+silent("C33", "default-mixed-wire-check-moved-directly-after-deferral",
+       [(_DM, "        # Defer first since it adds wires to the device\n        compile_pipeline.add_transform(qp.defer_measurements, allow_postselect=False)\n",
+              "        # Defer first since it adds wires to the device\n        compile_pipeline.add_transform(qp.defer_measurements, allow_postselect=False)\n        compile_pipeline.add_transform(validate_device_wires, self.wires, name=self.name)\n"),
+        (_DM, "        # Add the validate section\n        compile_pipeline.add_transform(validate_device_wires, self.wires, name=self.name)\n", "        # Add the validate section\n")])
